@@ -108,7 +108,11 @@ def replay_ser(state):
         from statham.schema.elements import String
         from statham.schema.elements.meta import ObjectMeta as _OM
         inner = [x for x in drive.walk_elements(el) if x is not el and not isinstance(x, _OM)]
-        defs = {"outside": String(minLength=3)}
+        from statham.schema.elements import Element as _El
+        # definitions that Python's == on the EMITTED keywords cannot tell from what the tree may
+        # hold (1 / True, 0 / False): a reference to the wrong one changes the meaning
+        defs = {"outside": String(minLength=3), "one": _El(const=1), "truth": _El(const=True),
+                "zero": _El(enum=[0]), "no": _El(enum=[False]), "l1": _El(const=[1]), "lt": _El(const=[True])}
         if inner:
             defs["inner"] = inner[len(inner) // 2]
         jd = serialize_json(el, definitions=defs)
